@@ -1,6 +1,8 @@
 # -*- coding: utf-8 -*-
 
+import json
 import logging
+import os
 import queue
 import time
 
@@ -65,6 +67,64 @@ def get_ncpu(
             'The ncpu setting must be >= 1!')
 
     return ncpu
+
+def _verif_hook(
+        pid,
+        task_idx,
+        rqueue=None,
+):
+    """Fault injection hook for the verification of the :func:`parallelize`
+    function. It does nothing unless the environment variable
+    ``ICECUBE_SKYLLH_VERIF`` is set to ``1`` and the environment variable
+    ``ICECUBE_SKYLLH_VERIF_PLAN`` holds a JSON list of
+    ``{"pid": int, "task": int | null, "action": str}`` entries. The entries
+    for worker ``pid`` are executed in list order, either at the start of the
+    task with index ``task``, or, if ``task`` is ``null`` (or the action is
+    ``exit-after-result``), after the worker has put its result into the result
+    queue and before it puts the end marker into its log records queue.
+    The possible actions are ``sleep:<seconds>``, ``raise``, ``exit:<code>``,
+    and ``exit-after-result[:<code>]``.
+
+    Parameters
+    ----------
+    pid : int
+        The process ID of the worker within the :func:`parallelize` function.
+    task_idx : int | None
+        The index of the task that is about to start. ``None`` specifies the
+        place after the result has been put into the result queue.
+    rqueue : multiprocessing.Queue | None
+        The result queue. Before a planned exit after the result was queued,
+        the queue is flushed, so the result has reached the master process.
+    """
+    if os.environ.get('ICECUBE_SKYLLH_VERIF') != '1':
+        return
+    plan = os.environ.get('ICECUBE_SKYLLH_VERIF_PLAN')
+    if not plan:
+        return
+
+    for entry in json.loads(plan):
+        if entry.get('pid') != pid:
+            continue
+        action = str(entry.get('action', ''))
+        if action.startswith('exit-after-result'):
+            entry_task_idx = None
+            action = 'exit:' + (action.partition(':')[2] or '1')
+        else:
+            entry_task_idx = entry.get('task')
+        if entry_task_idx != task_idx:
+            continue
+
+        if action.startswith('sleep:'):
+            time.sleep(float(action[6:]))
+        elif action == 'raise':
+            raise RuntimeError(
+                f'verif hook: planned exception of worker {pid} at task '
+                f'{task_idx}.')
+        elif action.startswith('exit:'):
+            if (task_idx is None) and (rqueue is not None):
+                rqueue.close()
+                rqueue.join_thread()
+            os._exit(int(action[5:]))
 
 
 def parallelize(  # noqa: C901
@@ -162,12 +222,14 @@ def parallelize(  # noqa: C901
                 kwargs['rss'] = rss
             if tl is not None:
                 kwargs['tl'] = tl
+            _verif_hook(pid, task_idx)
             result_list.append(func(*args, **kwargs))
 
             if squeue is not None:
                 squeue.put((pid, task_idx))
 
         rqueue.put((pid, result_list, tl))
+        _verif_hook(pid, None, rqueue)
 
         # Put None object as the last log records queue item.
         lqueue.put_nowait(None)
